@@ -304,6 +304,21 @@ def doKey (sheet doc m use lit : List String) : String :=
     | _, _ => "bad"
   | _, _, _, _, _ => "bad"
 
+/-- `concat(count(key('k', ARG)), '|', key('k', ARG))` with ARG an expression evaluated at the document node -/
+def doKeyArg (sheet doc m use arg : List String) : String :=
+  match parseSheet sheet, parseDoc doc, parsePat m, parseExpr (use.length + 1) use, parseExpr (arg.length + 1) arg with
+  | some s, some d, some t, some (u, []), some (a, []) =>
+    let sp := stripOf s.post
+    let show' (spx : StripFn) (r : Option (List XNode)) : Option String :=
+      r.map fun l => toString l.length ++ "|" ++ (Value.ns l).toStr spx
+    let r1 := keyLookupArg sp ⟨t, u⟩ ⟨d, []⟩ (a.eval sp ⟨.node ⟨d, []⟩, 1, 1, []⟩)
+    let r2 := keyLookupArg noStrip ⟨t, u⟩ ⟨d.strip sp, []⟩ (a.eval noStrip ⟨.node ⟨d.strip sp, []⟩, 1, 1, []⟩)
+    match show' sp r1, show' noStrip r2 with
+    | some x, some y => if x == y then "S" ++ hexOfStr x else "S" ++ hexOfStr x ++ " SIM-DIFFERS " ++ hexOfStr y
+    | none, none => "unsupported"
+    | _, _ => "SIM-DIFFERS none"
+  | _, _, _, _, _ => "bad"
+
 mutual
 def sizeNode : Node → Nat
   | .elem _ _ kids => 1 + sizeKids kids
@@ -369,6 +384,10 @@ def step0 (s : Unit) : List String → Unit × String
   | "key" :: _ :: rest =>
     match splitSemi rest with
     | [sheet, doc, m, use, lit] => (s, doKey sheet doc m use lit)
+    | _ => (s, "bad")
+  | "keyarg" :: _ :: rest =>
+    match splitSemi rest with
+    | [sheet, doc, m, use, arg] => (s, doKeyArg sheet doc m use arg)
     | _ => (s, "bad")
   | "number" :: _ :: rest =>
     match splitSemi rest with
